@@ -34,31 +34,17 @@ def run(rep, tier, seed, replay=None):
             if msg:
                 fails.append({'idx': 0, 'case': replay['case'], 'msg': msg})
         else:
-            done, fails = P.run_oracle(binp, seed, n, 0)
+            done, fails = P.run_oracle(binp, seed, n)
             rep.cov['oracle_evaluations'] = done
     except RuntimeError as ex:
         rep.add_broken('search', 'vh c08 oracle', str(ex)[-800:])
-    known = P.known_zero_line_span()
     for f in fails[:4]:
-        if known and P.zero_line_span(f['case']) and ('did not return' in f['msg'] or 'panic' in f['msg']):
-            rep.known.append(known['line'])
-            continue
         rep.add_violation('%s -- %s' % (f['msg'], P.describe(f['case'])),
                           {'case': f['case'], 'cmd': 'vh c08 one %s' % ' '.join(str(x) for x in f['case'])})
     if not fails:
         # a disagreement between model and implementation on a concrete input: decide on the implementation alone
         for c, a, b in bad[:3]:
             r, msg = P.run_one(binp, c)
-            if msg and not (known and P.zero_line_span(c)):
+            if msg:
                 rep.add_violation('%s -- %s' % (msg, P.describe(c)), {'case': c, 'impl': a, 'model': b,
                                                                       'cmd': 'vh c08 one %s' % ' '.join(str(x) for x in c)})
-    # the known finding must still reproduce (otherwise the entry is stale)
-    if known and not replay:
-        r, msg = P.run_one(binp, known['witness'])
-        if msg:
-            rep.known.append(known['line'])
-            rep.cov['known_finding_reproduced'] = True
-        else:
-            rep.cov['known_finding_reproduced'] = False
-            rep.cov['known_finding_note'] = 'estimate-zero-line-span no longer reproduces: the known_findings.json entry is stale'
-    rep.known = sorted(set(rep.known))
